@@ -109,6 +109,11 @@ func c07Specs(c *run.Ctx) []built {
 		spec.Spec{Name: "c07-style-attr-vs-style-rules", Base: "new", Calls: []C{els("p", "span", "b"), attrsOn([]string{"style", "title"}, "", "p", "b"),
 			{Op: "AllowStyles", Names: []string{"color"}, Scope: "on", On: []string{"span"}},
 			{Op: "AllowStyles", Names: []string{"width"}, Enum: []string{"1px"}, Scope: "matching", OnRe: reMy}, {Op: "AllowElementsMatching", Re: reMy}}},
+		// rules registered under names that carry a vendor prefix themselves
+		spec.Spec{Name: "c07-prefixed-style-rule", Base: "new", Calls: []C{els("p", "span"), {Op: "AllowElementsMatching", Re: reMy},
+			{Op: "AllowStyles", Names: []string{"-webkit-box-shadow", "mso-color"}, Enum: []string{"none", "red"}, Scope: "on", On: []string{"p"}},
+			{Op: "AllowStyles", Names: []string{"-moz-box-shadow"}, Enum: []string{"none"}, Scope: "global"},
+			{Op: "AllowStyles", Names: []string{"-webkit-line-clamp"}, Enum: []string{"3"}, Scope: "matching", OnRe: reMy}}},
 		// custom matchers bound through an element pattern whose accepted values no default handler accepts
 		spec.Spec{Name: "c07-style-pattern-custom-values", Base: "new", Calls: []C{els("p"), {Op: "AllowElementsMatching", Re: reMy},
 			{Op: "AllowStyles", Names: []string{"color"}, Enum: []string{"brandcolor", "var(--brand)"}, Scope: "matching", OnRe: reMy},
